@@ -17,11 +17,14 @@
    The converse direction, for every input (TrimSpec.v; ParseHdrLine / ParseHeaders on the generic value
    path, i.e. without PHdrVals): whatever is accepted has a name that starts at the start offset, is a
    non-empty run of bytes that are neither white space nor ':', and is followed by SP / HT only up to the
-   colon (C07_accepted_name_and_colon); the value is empty or starts after the colon, and its first and
-   last byte are not white space (C07_accepted_value_is_trimmed).
-   PARTIAL: lone CR / lone LF line ends on the completeness side; on the converse side that the bytes
-   between the colon and the value, and after the value up to the line end, are white space the LWS
-   skipper crosses: render/parse oracle and the correspondence run. *)
+   colon; everything between the colon and the value, and between the value and the returned offset, is
+   white space (SP / HT / CR / LF); an empty value means white space only from the colon to the returned
+   offset (C07_accepted_name_and_colon); a non-empty value begins and ends with a byte that is not white
+   space (C07_accepted_value_is_trimmed).  Together: accepted => name *WSP ":" LWS [value LWS] with
+   the name and value extents exactly those of the text.
+   PARTIAL: lone CR / lone LF line ends on the completeness side; on the converse side the internal
+   structure of the white space (which CR / LF sequences count as folds and which as the line end):
+   render/parse oracle and the correspondence run. *)
 From Sipsp Require Import Harness Classify HdrLine FLineSpec HdrSpec BlockSpec TrimSpec.
 
 Theorem C07_header_line : forall p name wsb lead t1 tl d x,
@@ -92,12 +95,13 @@ Print Assumptions C07_header_block.
 
 (* ---- the converse direction, every input -------------------------------------------------------------------------------------------- *)
 Theorem C07_accepted_name_and_colon : forall buf offs o st', offs <= nnat (length buf) ->
-  parse_hdrline buf offs (mkhline hdr0 None) = Done o EOk st' -> name_colon offs buf (hx_h st').
+  parse_hdrline buf offs (mkhline hdr0 None) = Done o EOk st' -> name_colon offs o buf (hx_h st').
 Proof. exact hdrline_name_colon. Qed.
-Theorem C07_name_and_colon_means : forall a buf h, name_colon a buf h <->
+Theorem C07_name_and_colon_means : forall a o buf h, name_colon a o buf h <->
   po (h_name h) = a /\ 0 < pl (h_name h) /\ brange buf a (pf_end (h_name h)) nmb /\
   exists cpos, pf_end (h_name h) <= cpos /\ brange buf (pf_end (h_name h)) cpos is_sp /\ nth_error buf (N.to_nat cpos) = Some 58 /\
-    (pl (h_val h) = 0 \/ cpos < po (h_val h)).
+    ((pl (h_val h) = 0 /\ brange buf (cpos + 1) o is_ws) \/
+     (cpos < po (h_val h) /\ brange buf (cpos + 1) (po (h_val h)) is_ws /\ brange buf (pf_end (h_val h)) o is_ws)).
 Proof. intros. reflexivity. Qed.
 Theorem C07_accepted_value_is_trimmed : forall buf offs o st', offs <= nnat (length buf) ->
   parse_hdrline buf offs (mkhline hdr0 None) = Done o EOk st' -> trimmed buf (h_val (hx_h st')).
